@@ -32,6 +32,7 @@ ScenarioFails(ev) ==
   \cup (IF SeqToSet(ev.segmented_sum) = want /\ ev.segmented_unit THEN {} ELSE {"segments_sum"})
   \* the same detector objects after they have detected wave functions of the same gpts and another angular sampling
   \cup (IF SeqToSet(ev.annular_reused) = want /\ SeqToSet(ev.segmented_reused) = want THEN {} ELSE {"detector_used_before_on_another_grid"})
+  \cup (IF SeqToSet(ev.segmented_reassigned) = want THEN {} ELSE {"detector_limits_assigned_after_use"})
   \cup (IF SeqToSet(ev.split_low) \cup SeqToSet(ev.split_high) = want /\ SeqToSet(ev.split_low) \cap SeqToSet(ev.split_high) = {}
            /\ SeqToSet(ev.split_low) = Ring(ev.n, ev.inner, ev.mid) THEN {} ELSE {"additive_over_adjacent_ranges"})
   \* the adjacent ranges integrated one after the other from ONE pattern object (which was integrated over the whole range before)
